@@ -17,8 +17,10 @@ func init() {
 		Doc: "xSync reaches the storage commit; xCommit and xRollback reach no S3 request at all"})
 	register(&Rule{Name: "C04.vacuum-order", Min: 3, Run: c04VacuumOrder,
 		Doc: "vacuum deletes history and swaps the live tree only after its commit succeeded; nodes are deleted before versions"})
-	claim("C04", "C04 clauses decided (crash atomicity is an ordering argument around a single-PUT commit point): commit-order and retire (shared with C03), content-named (the name is bound to the stored bytes: one immutable object, one request), two-phase (storage commit in xSync only), vacuum-order. Not decided: that mast's flush awaits all node PUTs (dependency, trusted), and the contents of recovered tables.",
-		"C03.commit-order", "C03.retire", "C04.content-named", "C04.two-phase", "C04.vacuum-order")
+	register(&Rule{Name: "C04.vacuum-purge", Min: 2, Run: c04VacuumPurge,
+		Doc: "the kv tombstones vacuum creates are purged by the same call before it commits"})
+	claim("C04", "C04 clauses decided (crash atomicity is an ordering argument around a single-PUT commit point): commit-order and retire (shared with C03), content-named (the name is bound to the stored bytes: one immutable object, one request), two-phase (storage commit in xSync only), vacuum-order, vacuum-purge (the version vacuum publishes must not contain kv tombstones, which the SQL-layer merge of a recovery open cannot digest: vacuum stamps them with the zero time, which RemoveTombstones(cutoff) always purges, and purges before it commits). Not decided: that mast's flush awaits all node PUTs (dependency, trusted), and the contents of recovered tables.",
+		"C03.commit-order", "C03.retire", "C04.content-named", "C04.two-phase", "C04.vacuum-order", "C04.vacuum-purge")
 }
 
 // hashPkgs: packages whose functions count as a cryptographic content hash.
@@ -222,4 +224,43 @@ func c04VacuumOrder(c *Ctx) {
 	c.R.Cond(ok, rule, core.FuncName(dh)+": nodes before versions", c.P.Pos(verDels[0].Pos()),
 		"no node object is deleted after a version object: after a crash in between the candidates can be recomputed from the versions that still exist",
 		"a version object can be deleted before all node deletions are done: a crash in between orphans nodes that nothing names any more")
+}
+
+func c04VacuumPurge(c *Ctx) {
+	const rule = "C04.vacuum-purge"
+	fn := mustFunc(c, "", "", "Vacuum")
+	if fn == nil {
+		return
+	}
+	name := core.FuncName(fn)
+	var tombs, purges, commits []ssa.CallInstruction
+	for _, call := range an.Calls(fn) {
+		switch {
+		case an.CalleeIs(call, kvPkg, "DB", "Tombstone"):
+			tombs = append(tombs, call)
+		case an.CalleeIs(call, kvPkg, "DB", "RemoveTombstones"):
+			purges = append(purges, call)
+		case an.CalleeIs(call, kvPkg, "DB", "Commit"):
+			commits = append(commits, call)
+		}
+	}
+	for i, t := range tombs {
+		when := t.Common().Args[2]
+		c.R.Cond(an.IsZeroValue(when), rule, fmt.Sprintf("%s: Tombstone #%d uses the zero time", name, i+1), c.P.Pos(t.Pos()),
+			"a tombstone stamped with the zero time is older than every cutoff, so the RemoveTombstones of this call removes it",
+			"vacuum stamps its tombstones with a time that RemoveTombstones(cutoff) may keep (it keeps ts >= cutoff): the committed version then carries kv tombstones; after a crash before the parent is retired every later open must merge them with the parent's rows and the SQL-layer merge panics (\"not expecting tombstones\")")
+	}
+	if len(tombs) == 0 {
+		c.R.OK(rule, name+": no tombstones created", c.P.Pos(fn.Pos()), "nothing to purge")
+	}
+	ok := len(purges) > 0 && len(commits) == 1
+	if ok {
+		ok = false
+		for _, p := range purges {
+			if s, _ := an.SuccessDominates(p, commits[0]); s {
+				ok = true
+			}
+		}
+	}
+	c.R.Cond(ok, rule, name+": purge before commit", c.P.Pos(fn.Pos()), "RemoveTombstones succeeded before the vacuumed tree is committed", "the vacuumed tree can be committed without its tombstones having been purged")
 }
